@@ -151,11 +151,14 @@ def rSeq (W : Float) (k : Nat) : Float := if k = 0 then 2 * W else 4 * W * npSin
 def sincKernel (W : Float) (k : Nat) : Float :=
   if k = 0 then 2 * W else Float.sin (2 * pi * W * k.toFloat) / (pi * k.toFloat)
 
-def vecFn (l : List Float) : Nat → Float := let a := l.toArray; fun i => a.getD i 0
+/-- an array as a total function (0 outside); callers convert the list ONCE -/
+def arrFn (a : Array Float) (i : Nat) : Float := a.getD i 0
 
 /-- `eigvals[k]` of `dpss_windows` for one taper -/
 def concentration (N : Nat) (NW : Float) (row : List Float) : Float :=
-  quadAutocorr N (vecFn row) (rSeq (NW / N.toFloat))
+  let a := row.toArray
+  let r := ((List.range N).map (rSeq (NW / N.toFloat))).toArray
+  quadAutocorr N (arrFn a) (arrFn r)
 
 /-- `d_temp / np.sqrt(np.sum(d_temp ** 2))` -/
 def interpRescale (l : List Float) : List Float := rescale (Float.sqrt (sumSq l)) l
@@ -184,7 +187,7 @@ def fmax (a b : Float) : Float := if a < b then b else a
 
 /-- max |⟨v_i, v_j⟩ − δ_ij| -/
 def gramErr (N : Nat) (rows : List (List Float)) : Float :=
-  let fs := rows.map vecFn
+  let fs := rows.map fun r => arrFn r.toArray
   let idx := List.range fs.length
   (idx.zip fs).foldl (fun acc (i, u) =>
     (idx.zip fs).foldl (fun acc (j, v) =>
@@ -192,7 +195,7 @@ def gramErr (N : Nat) (rows : List (List Float)) : Float :=
 
 /-- max_m |Σ_n S[m,n]·v[n] − λ·v[m]| -/
 def sincResidual (N : Nat) (W : Float) (row : List Float) (lam : Float) : Float :=
-  let v := vecFn row
+  let v := arrFn row.toArray
   let ker := ((List.range N).map (sincKernel W)).toArray
   (List.range N).foldl (fun acc m =>
     let sv := sumN N fun n => ker.getD (if m ≤ n then n - m else m - n) 0 * v n
